@@ -58,7 +58,9 @@ type c20Chan struct {
 	farewell      bool
 	heartbeat     bool
 	feed          func([]byte)
-	slowWrite     int32       // >0: the next transport write stalls for that many milliseconds
+	slowWrite     int32        // >0: the next transport write stalls for that many milliseconds
+	stall         atomic.Value // chan struct{}: the background sender's next Writev stalls until it is closed
+	stalled       int32
 	pendingL      []time.Time // feed instants not yet matched to a passage (reads)
 }
 
@@ -274,6 +276,15 @@ func c20Channel(c *core.Ctx, id string, idx int, idle time.Duration) {
 	st.farewell = idx%4 == 1                                      // write-idle channels (odd idx)
 	st.heartbeat = idx%5 == 3                                     // both kinds
 	slowWriteTrial := !st.read && idx%3 == 0 && !st.closeInActive // sync-mode write-idle channels: one write stalls in the transport across the timer's expiry
+	// queued-blocking channels: Close is called while the sender is stalled inside the transport, so the close stays
+	// pending (IsActive false, inactive not yet delivered) for more than two idle periods: idleness keeps being reported
+	pendingClose := idx%3 == 1 && idx%4 == 2 && !st.closeInActive && !preCancelled
+	if pendingClose {
+		st.heartbeat = false
+	}
+	// the handler is built well before the channel becomes active (pipeline prepared ahead of time, slow executor):
+	// the idle period still starts at activation
+	earlyBuild := idx%6 == 4 && !pendingClose
 	var h netty.Handler
 	if st.read {
 		h = netty.ReadIdleHandler(idle)
@@ -290,6 +301,10 @@ func c20Channel(c *core.Ctx, id string, idx int, idle time.Duration) {
 	})
 	defer mon.Unroute(h)
 	before, after := &c20Before{st}, &c20After{st}
+	if earlyBuild {
+		time.Sleep(idle * 7 / 10)
+		c.Count("handlers_built_long_before_activation", 1)
+	}
 	if !st.read {
 		// write-idle: A must be <= the handler's own start; take it just before the channel is served
 		st.A = time.Now()
@@ -311,6 +326,12 @@ func c20Channel(c *core.Ctx, id string, idx int, idle time.Duration) {
 		if kind == mon.OpWrite && phase == 0 {
 			if ms := atomic.SwapInt32(&st.slowWrite, 0); ms > 0 {
 				time.Sleep(time.Duration(ms) * time.Millisecond)
+			}
+		}
+		if kind == mon.OpWritev && phase == 0 {
+			if ch, _ := st.stall.Load().(chan struct{}); ch != nil {
+				atomic.StoreInt32(&st.stalled, 1)
+				<-ch
 			}
 		}
 	}
@@ -363,6 +384,11 @@ func c20Channel(c *core.Ctx, id string, idx int, idle time.Duration) {
 	d := deltas[rng.Intn(len(deltas))] * time.Millisecond
 	gaps := []time.Duration{50 * time.Millisecond, 300 * time.Millisecond, idle - d, idle + d, 20 * time.Millisecond}
 	pattern := ""
+	if earlyBuild {
+		// nothing passes the handler for the first half period after activation
+		time.Sleep(idle / 2)
+		pattern = "E"
+	}
 	for i := 0; i < 3; i++ {
 		g := rng.Intn(len(gaps))
 		pattern += fmt.Sprint(g)
@@ -416,7 +442,36 @@ func c20Channel(c *core.Ctx, id string, idx int, idle time.Duration) {
 			time.Sleep(wait)
 		}
 	}
-	rig.Ch.Close(errSentinel)
+	pendingEvents, pendingJudged := 0, false
+	if pendingClose {
+		stall := make(chan struct{})
+		st.stall.Store(stall)
+		rig.Ch.Write([]byte{'.'})
+		for i := 0; i < 2000 && atomic.LoadInt32(&st.stalled) == 0; i++ {
+			time.Sleep(time.Millisecond)
+		}
+		closeCall := time.Now()
+		closed := make(chan struct{})
+		go func() { defer close(closed); rig.Ch.Close(errSentinel) }()
+		time.Sleep(2*idle + 800*time.Millisecond)
+		st.mu.Lock()
+		pendingJudged = atomic.LoadInt32(&st.stalled) == 1 && st.I.IsZero()
+		for _, e := range st.events {
+			if e.E.After(closeCall) {
+				pendingEvents++
+			}
+		}
+		st.mu.Unlock()
+		close(stall)
+		select {
+		case <-closed:
+		case <-time.After(10 * time.Second):
+			c.Inconclusive(id, "watchdog: pending Close did not complete after the stalled write was released")
+			return
+		}
+	} else {
+		rig.Ch.Close(errSentinel)
+	}
 	watch := idle*5/2 + 100*time.Millisecond
 	time.Sleep(watch)
 	late := atomic.LoadInt64(&canaryLate)
@@ -499,7 +554,17 @@ func c20Channel(c *core.Ctx, id string, idx int, idle time.Duration) {
 			viol("idle-events-stop-while-idleness-persists", fmt.Sprintf("only %d idle events in %v of silence, at least %d required", evInSilence, silence, need))
 		}
 	}
-	c.Sig(st.read, pattern, phase/(idle/4+1), st.panicEv, evInSilence, st.farewell, st.heartbeat)
+	if pendingJudged {
+		if late > 250000 {
+			c.Count("progress_inconclusive_canary_late", 1)
+		} else {
+			c.Count("pending_close_windows_judged", 1)
+			if pendingEvents < 1 {
+				viol("idle-events-stop-while-close-is-pending", fmt.Sprintf("Close was pending for %v (the sender stalled inside the transport; the inactive event had not been delivered) and no idle event was delivered in that window although nothing passed the handler", 2*idle+800*time.Millisecond))
+			}
+		}
+	}
+	c.Sig(st.read, pattern, phase/(idle/4+1), st.panicEv, evInSilence, st.farewell, st.heartbeat, pendingJudged, earlyBuild)
 	if st.heartbeat {
 		c.Count("channels_with_message_during_callback", 1)
 	}
